@@ -131,8 +131,7 @@ Definition bv_limits_item (i : item) : bool :=
 Definition bv_limits (d : defn) : bool := forallb bv_limits_item d.
 
 (* fields/field.go:196-198 a field name is used once; containers/container.go:89-91; uniques/unique.go:115-117
-   unique names; :126-128 no field twice in a unique; :133-142 no unique is a subset of another;
-   unique.go:26-38 NewUnique: its fields exist *)
+   unique names; :126-128 no field twice in a unique; unique.go:26-38 NewUnique: its fields exist *)
 Definition subset_s (l1 l2 : list string) : bool := forallb (fun x => mem_s x l2) l1.
 Fixpoint pairwise {A} (f : A -> A -> bool) (l : list A) : bool :=
   match l with [] => true | x :: r => forallb (f x) r && pairwise f r end.
@@ -142,10 +141,17 @@ Definition bv_members_item (i : item) : bool :=
     nodup_b String.eqb (map fd_name fs) && nodup_b String.eqb (map cd_name cs)
     && nodup_b String.eqb (map ud_name us)
     && forallb (fun u => nodup_b String.eqb (ud_fields u) && subset_s (ud_fields u) (map fd_name fs)) us
-    && pairwise (fun u v => negb (subset_s (ud_fields u) (ud_fields v)) && negb (subset_s (ud_fields v) (ud_fields u))) us
   | ItView _ _ pk cc val => nodup_b String.eqb (map fd_name (pk +++ cc +++ val))
   | _ => true
   end.
+(* uniques/unique.go:133-142 (slicex.Overlaps): no unique's field set contains another's *)
+Definition bv_overlap_item (i : item) : bool :=
+  match i with
+  | ItStruct _ _ _ _ _ _ _ us =>
+    pairwise (fun u v => negb (subset_s (ud_fields u) (ud_fields v)) && negb (subset_s (ud_fields v) (ud_fields u))) us
+  | _ => true
+  end.
+Definition bv_overlap (d : defn) : bool := forallb bv_overlap_item d.
 Definition bv_members (d : defn) : bool := forallb bv_members_item d.
 
 (* fields/field.go:316-332 ValidateTypeFields: every target of a reference field is a record;
@@ -275,8 +281,19 @@ Definition bv_ws_item (d : defn) (i : item) : bool :=
   end.
 Definition bv_ws (d : defn) : bool := forallb (bv_ws_item d) d.
 
+(* the two kinds of names the compiler makes up itself - <workspace>Descriptor and
+   <table>$uniques$<name> - must fit MaxIdentLen (types/type.go, uniques/unique.go:112-114); the parser
+   checks neither *)
+Definition gen_names_short (d : defn) : bool :=
+  forallb (fun i => match i with
+                    | ItStruct q _ _ _ _ _ _ us =>
+                      (N.of_nat (String.length (snd q)) <=? appdef_max_ident_len)%N
+                      && forallb (fun u => (N.of_nat (String.length (uniq_entity (snd q) (ud_name u))) <=? appdef_max_ident_len)%N) us
+                    | _ => true
+                    end) d.
+
 Definition builder_valid (d : defn) : bool :=
-  bv_keys d && bv_names d && bv_limits d && bv_members d && bv_refs d && bv_views d
+  bv_keys d && bv_names d && bv_limits d && bv_members d && bv_overlap d && bv_refs d && bv_views d
   && bv_funcs d && bv_projs d && bv_limit d && bv_acl d && bv_ws d.
 
 (* ------------------------------------------------------------------ the compiler model of C16 *)
@@ -319,13 +336,17 @@ Definition lexical (a : schema) : bool :=
   forallb (fun p => lex_ident (p_name p) && forallb ws_lex (p_wss p)) a.
 End Lexical.
 
-(* The compiler as it is: a well-formed schema is handed to the builder; when an Add... call's
-   precondition fails the builder panics inside BuildAppDefs (no error is returned) *)
+(* The compiler: a well-formed schema is handed to the builder.  When a precondition of an Add...
+   call fails the builder panics; `recovers` says whether buildAppDefs turns that panic into an error
+   (pkg/parser/impl.go since the repair of C16-F1; read off the source by translator/parts/c16.py) or
+   lets it escape. *)
 Inductive verdict := VCompiled (d : defn) | VError | VPanic.
-Definition compile16 (a : schema) : verdict :=
-  if wf a && no_unique_collision a Go
-  then if builder_valid (compile_items a Go) then VCompiled (compile_items a Go) else VPanic
+Definition refused (recovers : bool) : verdict := if recovers then VError else VPanic.
+Definition compile16_with (recovers : bool) (a : schema) : verdict :=
+  if wf a
+  then if no_unique_collision a Go && builder_valid (compile_items a Go) then VCompiled (compile_items a Go) else refused recovers
   else VError.
+Definition compile16 (a : schema) : verdict := compile16_with parser_recovers_builder_panics a.
 
 (* ------------------------------------------------------------------ traces *)
 
@@ -349,16 +370,23 @@ Definition obs_total (o : text_obs) : bool :=
   negb (to_panicked o) && negb (to_hung o) && (negb (to_accepted o) || to_built o)
   && to_positioned o && to_deterministic o.
 
-(* model <-> code: same text, same accept / error / panic verdict, the observed definition passes the
-   validation model; for builder-API definitions the validation model predicts Build() *)
+(* ACLs rule by rule, in order: since the repair of C16-F2 the rules of one `... ON TABLE` statement come
+   in operation order, which is the order the model emits them in; before, only per operation *)
+Definition acl_exact (l1 l2 : list rule) : bool :=
+  list_eqb (fun x y => list_eqb op_eqb (r_ops x) (r_ops y) && rule_eqb1 x y) l1 l2.
+Definition acl_cmp : list rule -> list rule -> bool := if parser_grant_rules_sorted then acl_exact else acl_eqb.
+
+(* model <-> code: same text, same compiled / error / panic verdict, the observed definition passes the
+   validation model and is the model's definition; for builder-API definitions the validation model
+   predicts Build().  For a malformed schema only the refusal is predicted. *)
 Definition agrees (t : trace) : bool :=
   match t with
   | TModel a texts out obs =>
     texts_eqb (render a) texts
     && match compile16 a, out with
-       | VCompiled d, Compiled items _ _ => builder_valid items && dump_match acl_eqb d items && to_built obs
+       | VCompiled d, Compiled items _ _ => builder_valid items && dump_match acl_cmp d items && to_built obs
        | VPanic, Rejected true => true
-       | VError, Rejected panicked => negb (wf a) || panicked
+       | VError, Rejected panicked => negb panicked || negb (wf a)
        | _, _ => false
        end
   | TBuilder d accepted => Bool.eqb (builder_valid d) accepted
